@@ -393,6 +393,35 @@ func init() {
 		for _, a := range c.Args {
 			ks = append(ks, c.Ex.scalarsIn(a)...)
 		}
+		// constant format with integer / string verbs: a string template
+		if len(c.Args) >= 1 && c.Name == "fmt.Sprintf" {
+			if f, ok := c.Ex.force(c.Args[0]).(*smt.Term); ok && f.IsLit() {
+				var as []*smt.Term
+				scalarOnly := true
+				if len(c.Args) > 1 {
+					if sl, ok := c.Ex.force(c.Args[1]).(*SliceV); ok {
+						for i := 0; i < sl.Len; i++ {
+							v := c.Ex.force(sl.Arr.Elems[sl.Off+i].V)
+							if iv, ok := v.(*IfaceV); ok {
+								v = c.Ex.force(iv.V)
+							}
+							if t, ok := v.(*smt.Term); ok {
+								as = append(as, t)
+							} else {
+								scalarOnly = false
+							}
+						}
+					} else {
+						scalarOnly = false
+					}
+				}
+				if scalarOnly {
+					if t, ok := sprintfTemplate(f.Name, as); ok {
+						return t
+					}
+				}
+			}
+		}
 		return smt.App(c.Ex.callSiteTag(c, "sprintf"), smt.Str, ks...)
 	}, "fmt.Sprintf", "fmt.Sprint", "fmt.Sprintln")
 	reg(func(c *Call) Val { return smt.App("itoa", smt.Str, t(c, 0)) }, "strconv.Itoa")
@@ -406,8 +435,27 @@ func init() {
 	// ---- addresses ----
 	reg(func(c *Call) Val { return smt.App("modaddr", smt.Addr, t(c, 0)) }, "github.com/cosmos/cosmos-sdk/x/auth/types.NewModuleAddress")
 	reg(func(c *Call) Val {
+		// address.Module(name) without derivation keys is the module address of that name
+		if len(c.Args) == 2 {
+			if sl, ok := c.Ex.force(c.Args[1]).(*SliceV); ok && sl.Len == 0 {
+				return smt.App("modaddr", smt.Addr, c.Ex.term(c.Args[0]))
+			}
+			if _, ok := c.Ex.force(c.Args[1]).(*NilV); ok {
+				return smt.App("modaddr", smt.Addr, c.Ex.term(c.Args[0]))
+			}
+		}
 		var ks []*smt.Term
 		for _, a := range c.Args {
+			a = c.Ex.force(a)
+			if sl, ok := a.(*SliceV); ok { // variadic [][]byte
+				for i := 0; i < sl.Len; i++ {
+					if b, ok := c.Ex.force(sl.Arr.Elems[sl.Off+i].V).(*BytesV); ok {
+						kk, _ := c.Ex.keyArgs([]Val{b})
+						ks = append(ks, kk...)
+					}
+				}
+				continue
+			}
 			ks = append(ks, c.Ex.scalarsIn(a)...)
 		}
 		return smt.App("addrfn!address.Module", smt.Addr, ks...)
@@ -453,6 +501,31 @@ func init() {
 		c.Ex.assume(smt.Ge(l, smt.IntC(0)))
 		return l
 	}, S("BigEndianToUint64"))
+
+	// ---- encoding/binary ----
+	reg(func(c *Call) Val {
+		// PutUint64(bz, v): the buffer now holds the big-endian encoding of v
+		b, ok := c.Args[1].(*BytesV)
+		if !ok {
+			c.Ex.abort("PutUint64 into %T", c.Args[1])
+		}
+		b.Tag, b.Args, b.Nil, b.Sub, b.Obj, b.Row = "u64be", []*smt.Term{t(c, 2)}, false, nil, nil, nil
+		return nil
+	}, "(encoding/binary.bigEndian).PutUint64")
+	reg(func(c *Call) Val {
+		b := c.Args[1].(*BytesV)
+		if b.Tag == "u64be" && len(b.Args) == 1 {
+			return b.Args[0]
+		}
+		if b.Row != nil {
+			l := smt.App(b.Row.Base+"!u64", smt.Int, b.Row.Key...)
+			c.Ex.assume(smt.Ge(l, smt.IntC(0)))
+			return l
+		}
+		l := smt.App("be2u64!"+b.Tag, smt.Int, b.Args...)
+		c.Ex.assume(smt.Ge(l, smt.IntC(0)))
+		return l
+	}, "(encoding/binary.bigEndian).Uint64")
 
 	// ---- time ----
 	reg(func(c *Call) Val { return c.Args[0].(*TimeV).Unix }, "(time.Time).Unix")
